@@ -4,7 +4,7 @@
    between dmin and dmax, that `Instant` is monotone, and how the OS schedules the process are runtime
    behaviour: they appear as hypotheses, not as claims. *)
 From Coq Require Import ZArith List Bool Lia.
-From KV.rt Require Import GenRtConsts TimeoutModel TimeoutProofs RtModel RtProofs.
+From KV.rt Require Import GenRtConsts TimeoutModel TimeoutProofs RtModel RtProofs GenKotoSettings SettingsProofs.
 Import ListNotations.
 Open Scope Z_scope.
 
@@ -93,6 +93,21 @@ Theorem nested_timeout_catchable_refuted :
   fst r = HOk /\ timeouts_delivered (snd r) = 1%nat /\ sizes (snd r) = (0, 0, 0, 0, 0).
 Proof. vm_compute. repeat split; reflexivity. Qed.
 
+(* ---- configuration through the public builder API (GenKotoSettings.v: regenerated from koto.rs) ------------ *)
+
+(* every KotoSettings builder method other than with_execution_limit leaves the configured limit unchanged *)
+Theorem builders_preserve_limit : forall b a s, is_limit b = false -> limit_of (apply_builder b a s) = limit_of s.
+Proof. exact other_builders_keep_limit. Qed.
+
+(* so, in any order of the builder calls: if with_execution_limit d is called and no later call configures another
+   limit, the runtime is built with limit d *)
+Theorem limit_survives_any_chain : forall pre d post s,
+  forallb (fun ba => negb (is_limit (fst ba))) post = true ->
+  limit_of (apply_chain (pre ++ (B_with_execution_limit, d) :: post) s) = Some d.
+Proof. exact limit_survives. Qed.
+
+Print Assumptions builders_preserve_limit.
+Print Assumptions limit_survives_any_chain.
 Print Assumptions check_cadence.
 Print Assumptions cadence_run.
 Print Assumptions timeout_not_early.
@@ -126,3 +141,9 @@ Example flat_error_is_caught :
   let r := host (HRun 1 (Try (Call 1 3 (Try Fail Nop)) Nop)) fresh in
   fst r = HOk /\ handlers_run (snd r) = 1%nat.
 Proof. vm_compute. repeat split; reflexivity. Qed.
+
+(* non-vacuity: the chain of the seeded scenario (limit, then stdout) on the regenerated builders *)
+Example limit_then_stdout :
+  limit_of (apply_chain [(B_with_execution_limit, 50); (B_with_stdout, 1); (B_with_stderr, 2)] s_default) = Some 50
+  /\ length all_builders = 8%nat.
+Proof. vm_compute. split; reflexivity. Qed.
